@@ -107,3 +107,120 @@ func embedShapeOK(r *Reg) bool {
 	d := r.Deps[0]
 	return d.Builtin == 0 && !d.Ignored && !d.Optional && d.Key == "" && d.Group == "" && inInts(d.T, EmbedDepTypes)
 }
+
+// KindTwin: two statically typed constructors whose parameter objects are
+// DIFFERENT types with the SAME printed name (both are called "params",
+// declared locally in two functions): one asks for the plain *D0, the other
+// for the *N0 named "a".
+const KindTwin = 6
+
+func nilableD0(p *D0) any {
+	if p == nil {
+		return nil
+	}
+	return p
+}
+
+func nilableN0(p *N0) any {
+	if p == nil {
+		return nil
+	}
+	return p
+}
+
+func twinPlainD1(w *World, r *Reg) any {
+	type params struct {
+		godi.In
+		Dep *D0
+	}
+	return func(p params) (*D1, error) { return staticInvoke[*D1](w, r, nilableD0(p.Dep)) }
+}
+
+func twinNamedD1(w *World, r *Reg) any {
+	type params struct {
+		godi.In
+		Dep *N0 `name:"a"`
+	}
+	return func(p params) (*D1, error) { return staticInvoke[*D1](w, r, nilableN0(p.Dep)) }
+}
+
+func twinPlainN1(w *World, r *Reg) any {
+	type params struct {
+		godi.In
+		Dep *D0
+	}
+	return func(p params) (*N1, error) { return staticInvoke[*N1](w, r, nilableD0(p.Dep)) }
+}
+
+func twinNamedN1(w *World, r *Reg) any {
+	type params struct {
+		godi.In
+		Dep *N0 `name:"a"`
+	}
+	return func(p params) (*N1, error) { return staticInvoke[*N1](w, r, nilableN0(p.Dep)) }
+}
+
+func twinShapeOK(r *Reg) bool {
+	if r.Form != FormPlain || len(r.Outs) != 1 || len(r.As) > 0 || r.Outs[0].T != r.Outs[0].Impl || r.Outs[0].HasAlt || len(r.Deps) != 1 {
+		return false
+	}
+	d := r.Deps[0]
+	if (r.Outs[0].T != 1 && r.Outs[0].T != NumD+1) || d.Builtin != 0 || d.Ignored || d.Optional || d.Group != "" {
+		return false
+	}
+	return (d.T == 0 && d.Key == "") || (d.T == NumD && d.Key == "a")
+}
+
+func twinCtor(w *World, r *Reg) any {
+	named := r.Deps[0].Key == "a"
+	switch {
+	case r.Outs[0].T == 1 && !named:
+		return twinPlainD1(w, r)
+	case r.Outs[0].T == 1:
+		return twinNamedD1(w, r)
+	case !named:
+		return twinPlainN1(w, r)
+	}
+	return twinNamedN1(w, r)
+}
+
+// PlantTwins adds two consumers whose parameter-object types print alike but
+// differ in field type and tag (plus providers for what they ask for, if
+// missing). Returns false when the identities needed are taken in an
+// unsuitable way.
+func PlantTwins(t *rapid.T, cfg *Config) bool {
+	m, err := NewModel(cfg)
+	if err != nil {
+		return false
+	}
+	nid := 0
+	for _, r := range cfg.Regs {
+		if r.ID >= nid {
+			nid = r.ID + 1
+		}
+	}
+	wants := []Ident{{T: 0}, {T: NumD, Key: "a"}}
+	var add []Reg
+	for _, id := range wants {
+		if ow, ok := m.Owner(id); ok {
+			if m.Regs[ow.Reg].Life == Scoped || m.NilOutput(id) {
+				return false // consumers of any lifetime need a provider that is not scoped
+			}
+			continue
+		}
+		add = append(add, Reg{ID: nid, Life: Singleton, Form: FormPlain, Outs: []OutSpec{{T: id.T, Impl: id.T}}, Name: id.Key, HasErr: true})
+		nid++
+	}
+	outT := rapid.SampledFrom([]int{1, NumD + 1}).Draw(t, "twinOut")
+	for i, id := range wants {
+		name := []string{"twinPlain", "twinNamed"}[i]
+		if _, taken := m.Owner(Ident{T: outT, Key: name}); taken {
+			return false
+		}
+		add = append(add, Reg{ID: nid, Life: rapid.IntRange(0, 2).Draw(t, "twinLife"), Form: FormPlain, Kind: KindTwin, HasErr: true,
+			Outs: []OutSpec{{T: outT, Impl: outT}}, Name: name, Deps: []DepSpec{{T: id.T, Key: id.Key}}})
+		nid++
+	}
+	cfg.Regs = append(cfg.Regs, add...)
+	return true
+}
